@@ -70,16 +70,18 @@ func genCase(r *gen.Rand, i int) any {
 	case x < 16:
 		// cut the reply of one command at some offset: thorough coverage of the offsets comes from many cases
 		c.CutCmd = 1 + r.Intn(n)
-		c.CutAt = r.Intn(40)
+		// at least one byte: a cut at 0 could only be done by killing the connection, which also drops the replies
+		// still queued for the earlier commands (a different, timing dependent scenario)
+		c.CutAt = 1 + r.Intn(40)
 		if r.Chance(1, 3) {
-			c.CutAt = r.Intn(3*c.Buf + 20)
+			c.CutAt = 1 + r.Intn(3*c.Buf+20)
 		}
-	case x < 24:
+	case x < 20:
 		c.WrCmd = 1 + r.Intn(n)
 		c.WrFail = 1 + r.Intn(2*c.Buf+10)
-	case x < 27:
+	case x < 23:
 		c.Ctx = "before"
-	case x < 28:
+	case x < 24:
 		c.Ctx = "during"
 		c.Repeat = 2
 		c.Warm = false
@@ -161,8 +163,8 @@ func run(ci any) (res obs.Result) {
 				fc.Ext["n"] = 1
 			}
 			if int64(fc.Ext["n"].(int)) == target.Load() {
-				if c.CutAt == 0 {
-					return fakeredis.Action{CloseAfter: true}
+				if c.CutAt < 1 {
+					return fakeredis.Action{CloseMidReply: 1}
 				}
 				return fakeredis.Action{CloseMidReply: c.CutAt}
 			}
@@ -171,7 +173,7 @@ func run(ci any) (res obs.Result) {
 	}
 	cl, err := rueidis.NewClient(rueidis.ClientOption{InitAddress: []string{"127.0.0.1:6379"}, DialCtxFn: s.Dial, ForceSingleClient: true,
 		DisableRetry: true, DisableCache: true, PipelineMultiplex: -1, ReadBufferEachConn: c.Buf, WriteBufferEachConn: 4096, RingScaleEachConn: 6,
-		BlockingPoolSize: 2, ConnWriteTimeout: 400 * time.Millisecond})
+		BlockingPoolSize: 2, ConnWriteTimeout: 1200 * time.Millisecond})
 	if err != nil {
 		res.Oracle = "harness: " + err.Error()
 		return
@@ -212,7 +214,7 @@ func run(ci any) (res obs.Result) {
 	}
 	probe := func() string {
 		// a follow-up call on (possibly) the recycled connection
-		pctx, cancel := context.WithTimeout(ctx, 1500*time.Millisecond)
+		pctx, cancel := context.WithTimeout(ctx, 2500*time.Millisecond)
 		defer cancel()
 		st := cl.DoStream(pctx, cl.B().Get().Key("s:probe").Build())
 		var b bytes.Buffer
